@@ -68,8 +68,8 @@ def sim_check(ctx, families_quick, families_thorough, per_family, assume, extra_
     pr = tv = None
     if proof is not None:
         from checks import tfcommon
-        pr = vlib.prove(ctx, proof["prop_file"], ["__none__"])
-        if pr["ok"]:
+        pr = vlib.prove(ctx, proof["prop_file"], proof.get("gen", ["__none__"]))
+        if pr["ok"] and "validator" not in proof:
             ntf = proof["tf_per_family"][0] if ctx.tier == "quick" else proof["tf_per_family"][1]
             tv = tfcommon.validate(ctx, proof["tf_families"], ntf)
     fams = families_quick if ctx.tier == "quick" else families_thorough
@@ -85,6 +85,8 @@ def sim_check(ctx, families_quick, families_thorough, per_family, assume, extra_
             s0 += c
             left -= c
     batches = run_batches(jobs)
+    if proof is not None and "validator" in proof:
+        tv = proof["validator"](ctx, batches)
     total = 0
     status = {}
     distinct = set()
@@ -105,7 +107,7 @@ def sim_check(ctx, families_quick, families_thorough, per_family, assume, extra_
                 continue
             ph = hashlib.sha256(json.dumps(run["plan"], sort_keys=True).encode()).hexdigest()[:12]
             ntasks = sum(1 for t in run["plan"]["threads"] for a in t if a[0] == "submit")
-            if ntasks >= 2 or run["plan"]["family"] in ("resize",):
+            if ntasks >= 2 or run["plan"]["family"] in ("resize", "reuse"):
                 distinct.add((ph, run["seed"]))
             if sample is None and ntasks >= 3:
                 sample = {"plan": run["plan"], "seed": run["seed"], "status": run["status"],
@@ -143,7 +145,14 @@ def sim_check(ctx, families_quick, families_thorough, per_family, assume, extra_
             what = pr["broken"].get("lemma") or pr["broken"].get("kind")
             if not ctx.violations:
                 ctx.violations.append((f"{pr['broken']['kind']} ({what}) no longer checks", rp, True))
-        elif not tv["ok"] or tv["failed"]:
+        elif "validator" in proof and (not tv["ok"] or tv["failed"]):
+            rp = vlib.write_replay(ctx, "correspondence", {
+                "kind": f"the real code and {proof['model_name']} disagree on the same inputs", "failed": tv["failed"][:10],
+                "of": tv["traces"], "error": tv.get("error"), "searched": f"{total} simulated schedules with the property monitors"})
+            if not ctx.violations:
+                ctx.violations.append((f"model/implementation correspondence broken on {len(tv['failed'])} of {tv['traces']} "
+                                       f"observed calls ({proof['model_name']}): {str(tv['failed'][:1])[:160]}", rp, not tv["failed"]))
+        elif "validator" not in proof and (not tv["ok"] or tv["failed"]):
             first = tv["failed"][0] if tv["failed"] else None
             rp = vlib.write_replay(ctx, "correspondence", {
                 "kind": "trace validation against coq/Model/TokenFlow.v failed: the real code made an observable change "
@@ -175,11 +184,11 @@ def sim_check(ctx, families_quick, families_thorough, per_family, assume, extra_
             "obligations": pr.get("obligations", 0) or 1,
             "discharged": pr.get("obligations", 0) if pr["ok"] else 0,
             "checker_cmd": f"cd /verif/coq && make {proof['prop_file'].replace('.v', '.vo')} + Print Assumptions; "
-                           "extraction (ExtrOcamlBasic) of Model/TokenFlowCheck.validate, cross-checked by vm_compute",
-            "trusted_base": vlib.TRUSTED_BASE + [
+                           + proof.get("checker_extra", "extraction (ExtrOcamlBasic) of Model/TokenFlowCheck.validate, cross-checked by vm_compute"),
+            "trusted_base": vlib.TRUSTED_BASE + proof.get("trusted_extra", [
                 "extraction with ExtrOcamlBasic only (Extract Inductive bool/option/unit/list/prod/sumbool; no Extract Constant), "
                 "coq/extract/tf_driver.ml (trace parser)",
-                "the observation function of corr/sim/tftrace.py (what is read off the real objects after each step)"],
+                "the observation function of corr/sim/tftrace.py (what is read off the real objects after each step)"]),
             "theorems": proof["theorems"], "print_assumptions": pr.get("assumptions"),
             "traces_validated_against_impl": (tv or {}).get("traces", 0),
             "trace_events": (tv or {}).get("events", 0),
